@@ -405,7 +405,7 @@ def add_split(job, g):
     return True
 
 
-def make_restart_job(job, g):
+def make_restart_job(job, g, alias=True):
     """a diblock a^i b^j whose residue numbers start again with the b block; half of the time b is a second NAME for
     the content of a (same atom names, one shared template).  Returns the index (within the molecule) of the first
     b residue, or None."""
@@ -415,7 +415,9 @@ def make_restart_job(job, g):
     if not names:
         return None
     a = g.choice(names)
-    if g.random() < 0.5 or len(names) < 2:
+    if not alias and len(names) < 2:
+        return None
+    if alias and (g.random() < 0.5 or len(names) < 2):
         b = "RX" if a != "RX" else "RY"
         spec["restypes"][b] = copy.deepcopy(spec["restypes"][a])
         spec["restypes"][b]["name"] = b
@@ -528,6 +530,20 @@ def add_coordinates(job, g, profile, force_res=None, cut_at_instance=None, cut_a
             xyz = [round(sum(gro["atoms"][a]["xyz"][d] for a in idxs) / len(idxs), 3) for d in range(3)]
             lines.append((resid, resname, "CG") + tuple(xyz))
             supplied_centres[f"{inst}:{resid}:{resname}"] = xyz
+    if kind == "mol" and lines and g.random() < profile.get("p_wrap_atoms", 0.0):
+        # the supplied structure is wrapped into the cell atom by atom (trjconv -pbc atom): residues at a box face are
+        # split over it; the numbers in the file are what has to be kept
+        bx = gro["box"][:3]
+        wrapped = []
+        for l in lines:
+            xyz = tuple(round(l[3 + d] % bx[d], 3) if not (0.0 <= l[3 + d] < bx[d]) else l[3 + d] for d in range(3))
+            xyz = tuple(min(x, round(bx[d] - 0.001, 3)) for d, x in enumerate(xyz))
+            wrapped.append(l[:3] + xyz)
+        if wrapped != lines:
+            job["atoms_wrapped_per_atom"] = True
+            for a_key, l in zip([k for k in supplied_atoms], wrapped):
+                supplied_atoms[a_key] = list(l[3:])
+        lines = wrapped
     job["coord_text"] = write_gro_text("verif input", lines, gro["box"][:3])
     if lines and g.random() < profile.get("p_atomno_restart", 0.0):
         # atom-number column as in single-molecule files pasted together: the numbers start again with every residue
@@ -607,7 +623,7 @@ def add_start(job, g):
     """-start <mol_name>#<mol_idx>-<resname>#<resid> for one or two molecule types"""
     spec = job["spec"]
     mts = {m["name"]: m for m in spec["moltypes"]}
-    used = sorted({n for n, _ in spec["molecules"]})
+    used = sorted({n for n, c in spec["molecules"] if c > 0})       # (entries with count 0 name no molecule)
     specs = []
     for name in g.sample(used, g.randint(1, min(2, len(used)))):
         mt = mts[name]
